@@ -2,7 +2,7 @@
    Convergence of the sweeps is NOT a theorem (partial).
    Only theorem statements closed by `exact`, each followed by Print Assumptions. *)
 From Coq Require Import List Arith.
-From TT Require Import RingSig SumN Mat Core Arith CoreP ArithP MatOps MatOpsP Skel SkelP Struct Local LocalP.
+From TT Require Import RingSig SumN Mat Core Arith CoreP ArithP MatOps MatOpsP Skel SkelP Struct Local LocalP StationaryP.
 Import ListNotations.
 Section C13.
 Context {R : Type} {RO : RingOps R} {RL : RingLaws R}.
@@ -33,7 +33,30 @@ Theorem C13_division_local_dense {R : Type} {RO : RingOps R} {RL : RingLaws R} (
       rmul (rmul (rconj (entry (pre ++ unit3 ra (nn yk) rb l0 m0 L0 :: post) is_)) (entry (ypre ++ yk :: ypost) is_))
            (entry (pre ++ unit3 ra (nn yk) rb r0' n0 R0 :: post) is_)).
 Proof. exact (division_local_dense pre post ypre ypost yk ra rb l0 m0 L0 r0' n0 R0). Qed.
+(* an exact quotient is STATIONARY for amen_divide: if q * y = x entry by entry, the k-th core of q satisfies the k-th local system
+   (operator diag(y) projected on the frame of q, right-hand side x projected on the same frame) exactly - every position, order, mode sizes,
+   rank profile, real and complex; and the hypotheses are met by every well-formed pair (q, y) with x := q * y as TT product *)
+Theorem C13_exact_quotient_stationary {R : Type} {RO : RingOps R} {RL : RingLaws R} (pre post ypre ypost xpre xpost : tt R) (g yk xk : core3 R) l m L :
+  length ypre = length pre -> length xpre = length pre -> length ypost = length post -> length xpost = length post ->
+  l < r0 g -> L < r1 g -> m < nn yk -> nn g = nn yk -> nn xk = nn yk ->
+  shape (xpre ++ xk :: xpost) = shape (ypre ++ yk :: ypost) ->
+  wf (pre ++ g :: post) -> wf (ypre ++ yk :: ypost) -> wf (xpre ++ xk :: xpost) ->
+  (forall is_, length is_ = length (shape (ypre ++ yk :: ypost)) -> Forall2 lt is_ (shape (ypre ++ yk :: ypost)) ->
+     rmul (entry (pre ++ g :: post) is_) (entry (ypre ++ yk :: ypost) is_) = entry (xpre ++ xk :: xpost) is_) ->
+  e3 (local_product (phiF pre (diag_tt ypre) pre ones3) (diag_core yk) (phiB post (diag_tt ypost) post) g) l m L
+  = e3 (local_rhs (phibF xpre pre ones2) xk (phibB xpost post) (r0 g) (r1 g)) l m L.
+Proof. exact (exact_quotient_stationary pre post ypre ypost xpre xpost g yk xk l m L). Qed.
+Theorem C13_product_quotient_stationary {R : Type} {RO : RingOps R} {RL : RingLaws R} (pre post ypre ypost : tt R) (g yk : core3 R) l m L :
+  length ypre = length pre -> length ypost = length post ->
+  l < r0 g -> L < r1 g -> m < nn yk -> nn g = nn yk ->
+  shape (pre ++ g :: post) = shape (ypre ++ yk :: ypost) ->
+  wf (pre ++ g :: post) -> wf (ypre ++ yk :: ypost) ->
+  e3 (local_product (phiF pre (diag_tt ypre) pre ones3) (diag_core yk) (phiB post (diag_tt ypost) post) g) l m L
+  = e3 (local_rhs (phibF (mul pre ypre) pre ones2) (mul_core g yk) (phibB (mul post ypost) post) (r0 g) (r1 g)) l m L.
+Proof. exact (product_quotient_stationary pre post ypre ypost g yk l m L). Qed.
 Print Assumptions C13_div_scalar_exact.
 Print Assumptions C13_mul_full.
 Print Assumptions C13_rank_search_spec.
 Print Assumptions C13_division_local_dense.
+Print Assumptions C13_exact_quotient_stationary.
+Print Assumptions C13_product_quotient_stationary.
